@@ -75,11 +75,12 @@ def rootsQueueF (user : Nat → Bool) : Nat → FS → Bool × FS
 `non_root_list` and `queue` is un-marked by the list destructors, the object whose `trace`
 panicked by its `ResetMarkDropGuard`. -/
 def unmarkAll (h : Heap) (l : List Nat) : Heap :=
-  l.foldl (fun h x => h.set x { h x with mark := .non }) h
+  -- (folded over a structure, not over the heap function: see `World.updAll`)
+  (l.foldl (fun (b : TS) x => { b with h := b.h.set x { b.h x with mark := .non } }) { h := h }).h
 
 /-- `ResetTracingCountersGuard` (unwinding out of `trace_counting`): reset `tc` of what is still buffered. -/
 def resetTc (h : Heap) (l : List Nat) : Heap :=
-  l.foldl (fun h x => h.set x { h x with tc := 0 }) h
+  (l.foldl (fun (b : TS) x => { b with h := b.h.set x { b.h x with tc := 0 } }) { h := h }).h
 
 inductive TraceResult
   | done (s : FS)                          -- completed; `s.ts.nonroot` is the reclaim candidate list
